@@ -27,6 +27,7 @@ def main(p):
             m = rfi.RFIMask(3.0, hdr, z, z + 1, z + 2, z + 3, z, z)
             m.chan_mask = np.array(p["prev"], dtype=bool)
             seq = {1.0: np.array(p["var"], bool), 2.0: np.array(p["skew"], bool), 3.0: np.array(p["kurt"], bool)}
+            orig = {k_: v.copy() for k_, v in seq.items()}      # numpy calls may write into the arrays they are given
             with mock.patch.object(Header, "chan_freqs", new_callable=mock.PropertyMock, return_value=f), \
                     mock.patch.object(rfi, "double_mad_mask", lambda arr, thr: seq[float(arr[0])]):
                 steps = [m.chan_mask.copy()]
@@ -37,7 +38,7 @@ def main(p):
                 m.apply_funcn(lambda cm: np.array(p["custom"], dtype=bool))
                 steps.append(m.chan_mask.copy())
             user = np.array([any(lo <= x <= hi for lo, hi in p["ranges"]) for x in f], dtype=bool)
-            st = seq[1.0] | seq[2.0] | seq[3.0]
+            st = orig[1.0] | orig[2.0] | orig[3.0]
             want = np.array(p["prev"], bool) | user | st | np.array(p["custom"], bool)
             if not np.array_equal(m.user_mask, user):
                 bad.append(f"user_mask {m.user_mask.tolist()} != closed-interval membership {user.tolist()}")
